@@ -4,7 +4,9 @@ package gosym
 // proto.Clone/Equal/Merge-free helpers, deep copies.
 
 import (
+	"fmt"
 	"go/types"
+	"math"
 
 	"golang.org/x/tools/go/ssa"
 )
@@ -290,4 +292,209 @@ func init() {
 			return string(out)
 		}
 	})
+}
+
+// proto.Merge(dst, src): structural merge over generated struct fields.
+func init() {
+	extraIntrinsics = append(extraIntrinsics, func(m map[string]Intrinsic) {
+		m["google.golang.org/protobuf/proto.Merge"] = func(fr *frame, args []value) value {
+			dst, src := args[0].(iface), args[1].(iface)
+			if src.t == nil || dst.t == nil {
+				return nil
+			}
+			if !types.Identical(dst.t, src.t) {
+				panic(runtimePanic{"proto: Merge of messages of different types"})
+			}
+			fr.i.protoMerge(dst.t, dst.v, src.v, 0)
+			return nil
+		}
+	})
+}
+
+func (i *interpreter) protoMerge(t types.Type, dst, src value, depth int) {
+	if depth > 40 {
+		panic(unsupported("proto.Merge recursion too deep"))
+	}
+	pt, ok := t.Underlying().(*types.Pointer)
+	if !ok {
+		panic(unsupported("proto.Merge of non-pointer message"))
+	}
+	dp, sp := dst.(*value), src.(*value)
+	if sp == nil || dp == nil {
+		return
+	}
+	st, ok := pt.Elem().Underlying().(*types.Struct)
+	if !ok {
+		panic(unsupported("proto.Merge of non-struct message"))
+	}
+	i.noteWrite(dp)
+	ds, ss := (*dp).(structure), (*sp).(structure)
+	for k := 0; k < st.NumFields(); k++ {
+		f := st.Field(k)
+		if isProtoInternalField(f.Name()) {
+			continue
+		}
+		switch ft := f.Type().Underlying().(type) {
+		case *types.Pointer:
+			p := ss[k].(*value)
+			if p == nil {
+				continue
+			}
+			if dpp := ds[k].(*value); dpp == nil {
+				ds[k] = deepCopy(p, map[*value]*value{})
+			} else {
+				i.protoMerge(f.Type(), dpp, p, depth+1)
+			}
+		case *types.Slice:
+			s := ss[k].([]value)
+			if len(s) == 0 {
+				continue
+			}
+			if b, isBasic := ft.Elem().Underlying().(*types.Basic); isBasic && b.Kind() == types.Uint8 {
+				ds[k] = deepCopy(s, map[*value]*value{}) // bytes field: replaced
+				continue
+			}
+			d, _ := ds[k].([]value)
+			for _, e := range s {
+				d = append(d, deepCopy(e, map[*value]*value{}))
+			}
+			ds[k] = d
+		case *types.Map:
+			sm := ss[k].(*omap)
+			if sm.len() == 0 {
+				continue
+			}
+			dm := ds[k].(*omap)
+			if dm == nil {
+				dm = makeMap(ft.Key(), 0).(*omap)
+				ds[k] = dm
+			}
+			for _, e := range sm.entries {
+				if e.live {
+					dm.insert(e.key, deepCopy(e.val, map[*value]*value{}))
+				}
+			}
+		case *types.Interface: // oneof
+			it := ss[k].(iface)
+			if it.t != nil {
+				ds[k] = deepCopy(it, map[*value]*value{})
+			}
+		default:
+			// scalar: set when non-zero in src
+			z := zero(f.Type())
+			if eq, isBool := i.eqDyn(f.Type(), ss[k], z).(bool); !isBool || !eq {
+				ds[k] = ss[k]
+			}
+		}
+	}
+}
+
+// proto.Marshal model: a deterministic, injective structural encoding of the
+// generated struct (not the protobuf wire format). Only sizes, equality and
+// hashes of the bytes are ever consulted by the code under test.
+func init() {
+	extraIntrinsics = append(extraIntrinsics, func(m map[string]Intrinsic) {
+		marshal := func(fr *frame, args []value) value {
+			it := args[0].(iface)
+			var out []byte
+			if it.t != nil {
+				out = fr.i.protoEncode(it.t, it.v, out, 0)
+			}
+			res := make([]value, len(out))
+			for k, b := range out {
+				res[k] = b
+			}
+			return tuple{res, iface{}}
+		}
+		m["google.golang.org/protobuf/proto.Marshal"] = marshal
+		m["(google.golang.org/protobuf/proto.MarshalOptions).Marshal"] = func(fr *frame, args []value) value {
+			return marshal(fr, args[1:])
+		}
+	})
+}
+
+func appendU64(out []byte, v uint64) []byte {
+	for s := 0; s < 8; s++ {
+		out = append(out, byte(v>>(8*uint(s))))
+	}
+	return out
+}
+
+func (i *interpreter) protoEncode(t types.Type, v value, out []byte, depth int) []byte {
+	if depth > 40 {
+		panic(unsupported("proto.Marshal recursion too deep"))
+	}
+	switch u := t.Underlying().(type) {
+	case *types.Pointer:
+		p := v.(*value)
+		if p == nil {
+			return append(out, 0)
+		}
+		out = append(out, 1)
+		return i.protoEncode(u.Elem(), *p, out, depth+1)
+	case *types.Struct:
+		s := v.(structure)
+		for k := 0; k < u.NumFields(); k++ {
+			if isProtoInternalField(u.Field(k).Name()) {
+				continue
+			}
+			out = append(out, byte(0x80+k))
+			out = i.protoEncode(u.Field(k).Type(), s[k], out, depth+1)
+		}
+		return append(out, 0xff)
+	case *types.Slice:
+		s := v.([]value)
+		out = appendU64(out, uint64(len(s)))
+		for _, e := range s {
+			out = i.protoEncode(u.Elem(), e, out, depth+1)
+		}
+		return out
+	case *types.Map:
+		m := v.(*omap)
+		out = appendU64(out, uint64(m.len()))
+		if m != nil {
+			for _, e := range m.entries {
+				if e.live {
+					out = i.protoEncode(u.Key(), e.key, out, depth+1)
+					out = i.protoEncode(u.Elem(), e.val, out, depth+1)
+				}
+			}
+		}
+		return out
+	case *types.Interface:
+		it := v.(iface)
+		if it.t == nil {
+			return append(out, 0)
+		}
+		out = append(out, 1)
+		out = appendU64(out, uint64(hashType(it.t)))
+		return i.protoEncode(it.t, it.v, out, depth+1)
+	case *types.Basic:
+		switch x := v.(type) {
+		case string:
+			out = appendU64(out, uint64(len(x)))
+			return append(out, x...)
+		case bool:
+			if x {
+				return append(out, 1)
+			}
+			return append(out, 0)
+		case float64:
+			return appendU64(out, math.Float64bits(x))
+		case float32:
+			return appendU64(out, uint64(math.Float32bits(x)))
+		case sym:
+			if x.k == types.Bool {
+				if i.branch(x.t, "bool in proto.Marshal") {
+					return append(out, 1)
+				}
+				return append(out, 0)
+			}
+			return appendU64(out, i.concretize(x.t, "field in proto.Marshal"))
+		}
+		if b, ok := intBits(v); ok {
+			return appendU64(out, b)
+		}
+	}
+	panic(unsupported(fmt.Sprintf("proto.Marshal of %T", v)))
 }
